@@ -6,19 +6,30 @@ specification, and coq/Properties/C01Spec.v proves that MontePy's modelled line 
 well-formed file into exactly the cards that specification prescribes (C01_split_agrees, no bound on the file).
 This module closes the remaining gap by correspondence, on every run:
 
-  (a) obligations: Properties/C01Spec.v is built and audited (Print Assumptions on every theorem);
+  (a) obligations: Properties/C01Spec.v and Properties/SpecSem.v are built and audited (Print Assumptions on every
+      theorem);
   (b) the extracted Spec.Cards (wire entry run_Cards, coq/Model/SpecWire.v) and spec.py are run on the same generated
       files (gen.gen_problem rendered by gen.render with plain / wild layouts + lay_C11.relayout, both widths; a soup
       of edge-case lines; the committed corpus corpus/Spec/*.json) and compared: physical lines, message block, title,
       number of blocks, per card its words and its comment texts; S8 tokens and S9 numbers token by token;
+      S11: Spec/Geometry.v (read_geometry, same_regionb) against spec.parse_geometry / spec.geom_equal on the cell
+      geometries of the generated files, grammar-directed token lists, re-spellings and a token soup; S10:
+      Spec/Shortcuts.v (expand) against spec.expand_shortcuts on the data / surface cards of the generated files and
+      generated lists (logarithmic interpolates are symbolic in Coq and compared with spec.py's floats);
   (c) on the generated files that satisfy the theorem's well-formedness predicate (wf_file, evaluated by the extracted
       code) the real MontePy line reader (read_input_syntax) is run too and must give the title and the
-      (block, words) list of Spec.Cards: an instance check of C01_split_agrees on the real code;
+      (block, words) list of Spec.Cards, and the (block, comment text) list of its stored lines must be that of the
+      cards: instance checks of C01_split_agrees and C01_comments_agree on the real code;
+    (c'') the open known findings of findings/Spec.entries.json (property C01: the four deviations of the real reader from
+      the rules, Coq witnesses C01_split_deviations) are appended to ctx.findings, each replayed on the real reader
+      (_reproduced) so that ctx.finish prints its KNOWN-FINDING line; generated files outside the predicate on which
+      the real reader and the rules differ are attributed through the trigger predicates of harness/findings_Spec.py;
   (d) a sample of the extracted answers is re-evaluated inside Coq by vm_compute.
 
 A mismatch is shrunk and appended to ctx.broken_obligations.  Known, reported deviations of spec.py from the rules
 (corpus/Spec/deviation-*.json: inputs outside what the generators produce) are checked to still deviate in exactly the
-recorded way and are only counted.
+recorded way and are only counted (none at present: the one found, a '&' without a blank before it taken for the
+continuation mark, was repaired in spec.py; corpus/Spec/regression-*.json keep the two inputs).
 
 Stand-alone:  PYTHONPATH=/repo:/verif/harness /venv/bin/python harness/spec_tie.py [--tier quick|thorough] [--seed N]
 exits non-zero on any mismatch or unproved obligation.
@@ -37,9 +48,11 @@ import gen
 import lay_C11
 import mp
 import spec
+import findings_Spec
 
 MODEL = "SpecWire"
 PROP_FILE = "Properties/C01Spec.v"
+PROP_FILES = [PROP_FILE, "Properties/SpecSem.v"]
 CORPUS = os.path.join(vlib.VERIF, "corpus", "Spec")
 WIDTHS = (80, 128)
 
@@ -134,6 +147,7 @@ def real_view(data, w):
         fh.write(data)
     title = None
     cards = []
+    comments = []          # [block, comment text] of the stored lines, in order (C01_comments_agree's left-hand side)
     err = None
     with warnings.catch_warnings():
         warnings.simplefilter("ignore")
@@ -149,14 +163,26 @@ def real_view(data, w):
                     continue
                 ws = []
                 for l in x.input_lines:
+                    if l.strip(" ") == "":
+                        continue
                     if _C_LINE.match(l):
+                        comments.append([x.block_type.value, re.sub(r"^ {0,4}[cC]", "", l).strip(" ")])
                         continue
                     d = l.split("$")[0]
+                    if "$" in l:
+                        comments.append([x.block_type.value, l[l.index("$") + 1:].strip(" ")])
                     ws += [t for t in d.split(" ") if t and t != "&"]
                 cards.append([x.block_type.value, ws])
         except Exception as e:
             err = type(e).__name__
+    real_view.comments = comments
     return title, cards, err
+
+
+def model_comments(ans_cards):
+    """[block, comment text] of every card of Spec.Cards in file order (C01_comments_agree's right-hand side)"""
+    d = parse_model_cards(ans_cards)
+    return [[bi, c] for bi, blk in enumerate(d["blocks"]) for _, cs in blk for c in cs]
 
 
 def model_view(ans_cards):
@@ -170,7 +196,7 @@ def model_view(ans_cards):
 SOUP = ["1", "0", "-1", "2", "imp:n=1", "px", "c", "C", "c ", " &", "  &", "$", "$ x &", " $ y", "\t", "  ", "     ",
         "      ", "cz", "fill=a", "\x80x", "\xe9", "MESSAGE:", "message: a", "mode n", " ", "", "c\t", "\tc x", "    c",
         "     c", "     cz 5", "      c x", "vol", "=", "(", ")", ":", "1.5e3", "u=2", "    C", "   c &", " & $ z",
-        "#", "#2", "c$", "C &", "$$", "&", "& &", " & ", "x"]
+        "#", "#2", "c$", "C &", "$$", "&", "& &", " & ", "x", "x&", "-1&", "&x"]
 
 
 def soup_text(rng):
@@ -254,8 +280,6 @@ def gen_file(rng):
     return damage(rng, text, w), w, "damaged"
 
 
-# spec.py reads "x&" (a '&' glued to a word, or in column 1) at the end of the data of a line as a continuation mark;
-# rule S7 asks for " &".  Reported (notes/Spec.md, corpus/Spec/deviation-glued-amp.json); the generators step around it.
 
 
 def in_scope(text, w):
@@ -264,13 +288,6 @@ def in_scope(text, w):
         return False                       # control characters: not in the rules
     if re.search(r"\r(?!\n)", text):
         return False                       # CR that is not part of CR LF
-    for raw in text.split("\n"):
-        l = "".join(ch if ord(ch) < 127 else " " for ch in raw.rstrip("\r").expandtabs(8))[:w]
-        if spec.is_comment_line(l):
-            continue
-        d = l.split("$")[0].rstrip(" ")
-        if d.endswith("&") and not d.endswith(" &"):
-            return False
     return True
 
 
@@ -287,6 +304,150 @@ def gen_number(rng):
     if r < 0.8:
         return gen.fmt_real(rng)
     return "".join(rng.choice("0123456789.+-eEdD") for _ in range(rng.randint(1, 8)))
+
+
+# ------------------------------------------------------------------------------ S11 geometry, S10 shortcuts
+GEOM_SOUP = ["1", "-2", "+3", "12", "0", "-0", "(", ")", ":", "#", "(", ")", ":", "#", "7", "-7", "X", "1.5", "+", "#5"]
+
+
+def sexp(ast):
+    k = ast[0]
+    if k == "leaf":
+        return "(s%s %d)" % ("+" if ast[1] > 0 else "-", ast[2])
+    if k == "cell":
+        return "(c %d)" % ast[1]
+    if k == "not":
+        return "(not %s)" % sexp(ast[1])
+    return "(%s %s %s)" % (k, sexp(ast[1]), sexp(ast[2]))
+
+
+def spec_geometry(toks):
+    try:
+        return sexp(spec.parse_geometry(list(toks)))
+    except spec.GeomError:
+        return "none"
+    except RecursionError:
+        return "none"
+
+
+def gen_geom_tokens(rng, depth=0):
+    """a geometry as token list: mostly valid (grammar-directed), sometimes soup"""
+    if depth == 0 and rng.random() < 0.25:
+        return [rng.choice(GEOM_SOUP) for _ in range(rng.randint(0, 9))]
+    r = rng.random()
+    if depth >= 3 or r < 0.35:
+        n = rng.choice([1, 2, 3, 4, 5, 6, 10, 23])
+        return [rng.choice(["", "-", "-", "+"]) + str(n)]
+    if r < 0.45:
+        return ["#", str(rng.choice([1, 2, 3, 9]))]
+    if r < 0.55:
+        return ["#", "("] + gen_geom_tokens(rng, depth + 1) + [")"]
+    if r < 0.7:
+        return ["("] + gen_geom_tokens(rng, depth + 1) + [")"]
+    if r < 0.87:
+        return gen_geom_tokens(rng, depth + 1) + gen_geom_tokens(rng, depth + 1)
+    return gen_geom_tokens(rng, depth + 1) + [":"] + gen_geom_tokens(rng, depth + 1)
+
+
+def rewrite_geom(rng, toks):
+    """another spelling of (mostly) the same region, or a slightly different one"""
+    r = rng.random()
+    if r < 0.3:
+        return ["("] + toks + [")"]
+    if r < 0.5:
+        return ["#", "(", "#", "("] + toks + [")", ")"]
+    if r < 0.65:
+        return ["("] + toks + [")", "("] + toks + [")"]
+    if r < 0.8:
+        return toks + [":", "("] + toks + [")"]
+    if r < 0.9:
+        return [t if not re.match(r"^[+-]?\d+$", t) or rng.random() < 0.7 else
+                ("-" + t.lstrip("+-") if not t.startswith("-") else t.lstrip("-")) for t in toks]
+    if rng.random() < 0.5:
+        return toks + [str(rng.choice([1, 2, 3]))]                      # a subset of the region
+    return ["("] + toks + [")", ":", str(rng.choice([1, 2, 3]))]        # a superset
+
+
+SC_SOUP = ["1", "2.5", "-3", "1E2", "0", "1.5+3", "2R", "R", "0R", "3I", "I", "0I", "2ILOG", "ILOG", "2LOG", "J", "3J",
+           "0J", "2M", "1.5M", "-2M", "1E1M", "M", "X", "IMP:N", "N", "2RR", "R2", "1J2", "LOG", "3ILOG", "10", "100",
+           "0.001", "-1", "4", "5R", "1I", "2I", ".5M", "+2M", "(", ")"]
+
+
+def gen_shortcut_tokens(rng):
+    n = rng.randint(0, 9)
+    if rng.random() < 0.6:       # mostly well-formed lists
+        out = [rng.choice(["1", "2.5", "10", "0.001", "4", "1E2"])]
+        for _ in range(n):
+            k = rng.random()
+            if k < 0.35:
+                out.append(rng.choice(["1", "2.5", "-3", "10", "100", "1.5+3", "7"]))
+            elif k < 0.5:
+                out.append(rng.choice(["R", "2R", "5R"]))
+            elif k < 0.65:
+                out += [rng.choice(["I", "2I", "3I"]), rng.choice(["20", "50.5", "1E3"])]
+            elif k < 0.75:
+                out += [rng.choice(["ILOG", "2ILOG", "3LOG"]), rng.choice(["20", "50.5", "1E3"])]
+            elif k < 0.87:
+                out.append(rng.choice(["2M", "1.5M", "-2M", ".5M"]))
+            else:
+                out += [rng.choice(["J", "2J"]), rng.choice(["3", "8"])]
+        return out
+    return [rng.choice(SC_SOUP) for _ in range(n)]
+
+
+def spec_shortcuts(toks):
+    """spec.expand_shortcuts -> list of ('n', Fraction) | ('j',) | ('w', str) | ('bad',), or 'raises'"""
+    try:
+        out = spec.expand_shortcuts(list(toks))
+    except Exception as e:
+        return "raises " + type(e).__name__
+    res = []
+    for v in out:
+        if isinstance(v, Fraction):
+            res.append(("n", v))
+        elif v == "J":
+            res.append(("j",))
+        elif isinstance(v, str):
+            res.append(("w", v))
+        else:
+            res.append(("bad",))
+    return res
+
+
+def parse_entries(ans):
+    if ans == "none":
+        return None
+    out = []
+    for e in ([] if ans == "-" else ans.split(",")):
+        if e[0] == "n":
+            a, b = e[1:].split("/")
+            out.append(("n", Fraction(int(a), int(b))))
+        elif e[0] == "j":
+            out.append(("j",))
+        elif e[0] == "w":
+            out.append(("w", unhx(e[1:])))
+        else:
+            a, b, n, j = e[1:].split(":")
+            fa = Fraction(*map(int, a.split("/")))
+            fb = Fraction(*map(int, b.split("/")))
+            out.append(("l", fa, fb, int(n), int(j)))
+    return out
+
+
+def entries_agree(model, py):
+    """Spec.Shortcuts entries against spec.py's values; a LogStep is compared with spec.py's float value"""
+    import math
+    if not isinstance(py, list) or len(model) != len(py):
+        return False
+    for m, p in zip(model, py):
+        if m[0] == "l":
+            _, a, b, n, j = m
+            want = 10 ** (math.log10(float(a)) + (math.log10(float(b)) - math.log10(float(a))) * j / (n + 1))
+            if p[0] != "n" or not spec.close(p[1], Fraction(want), 1e-12):
+                return False
+        elif m != p:
+            return False
+    return True
 
 
 # ------------------------------------------------------------------------------ shrinking
@@ -327,6 +488,8 @@ def theorem_mismatch(text, w):
     mv = model_view(a[1])
     if (rv[0], rv[1], rv[2]) != (mv[0], mv[1], mv[2]):
         return "real reader %r / Spec.Cards %r" % (rv, mv)
+    if real_view.comments != model_comments(a[1]):
+        return "comment texts: real reader %r / Spec.Cards %r" % (real_view.comments, model_comments(a[1]))
     return None
 
 
@@ -368,6 +531,80 @@ def load_corpus():
     return out
 
 
+# ------------------------------------------------------------------------------ known findings (property C01)
+ENTRIES = os.path.join(vlib.VERIF, "findings", "Spec.entries.json")
+
+
+def load_entries():
+    try:
+        with open(ENTRIES) as fh:
+            return [dict(e) for e in json.load(fh)]
+    except FileNotFoundError:
+        return []
+
+
+def _as_view(v):
+    return (v[0], [list(x) for x in v[1]], v[2])
+
+
+def replay_finding(entry):
+    """replay the committed witness of a finding on the real reader and on the extracted rules:
+    True when both read it as recorded (and so differ)"""
+    with open(os.path.join(vlib.VERIF, entry["replay"])) as fh:
+        case = json.load(fh)["case"]
+    text, w = case["text"], case["width"]
+    rv = real_view(text.encode("latin-1"), w)
+    mv = model_view(ask(["cards %d %s" % (w, hx(text))])[0])
+    return rv == _as_view(case["real_reader"]) and mv == _as_view(case["rules"]) and rv != mv
+
+
+def register_findings(ctx):
+    """append the open entries of findings/Spec.entries.json to ctx.findings (vlib only loads the files of the running
+    property) and set _reproduced on each from its replay; ctx.finish prints the KNOWN-FINDING lines"""
+    out = []
+    have = {f.get("id") for f in getattr(ctx, "findings", [])}
+    for e in load_entries():
+        if e.get("status") != "open":
+            continue
+        try:
+            e["_reproduced"] = bool(replay_finding(e))
+        except Exception as ex:                              # a replay that cannot run does not reproduce
+            e["_reproduced"] = False
+            e["_replay_error"] = type(ex).__name__
+        if e["id"] not in have and hasattr(ctx, "findings"):
+            ctx.findings.append(e)
+        out.append(e)
+    return out
+
+
+def attribute(case, entries):
+    """ids of the open findings whose trigger predicate (harness/findings_Spec.py) holds for the case"""
+    hit = []
+    for e in entries:
+        pred = getattr(findings_Spec, e["trigger"], None)
+        try:
+            if pred is not None and pred(case, e.get("params", {})):
+                hit.append(e["id"])
+        except Exception:
+            continue
+    return hit
+
+
+def replay(ctx, path):
+    """replay of a findings/F-C01-spec-*.json file (or of a replay written by this module): prints what the real reader
+    and the rules read; returns 0 when they agree, 1 when they differ"""
+    with open(path) as fh:
+        case = json.load(fh).get("case")
+    text, w = case["text"], case["width"]
+    rv = real_view(text.encode("latin-1"), w)
+    mv = model_view(ask(["cards %d %s" % (w, hx(text))])[0])
+    print("file        :", repr(text))
+    print("real reader :", rv)
+    print("rules       :", mv)
+    print("attributed  :", attribute(dict(case, kind=findings_Spec.KIND), load_entries()))
+    return 0 if rv == mv else 1
+
+
 # ------------------------------------------------------------------------------ run
 def run(ctx):
     t0 = time.time()
@@ -392,7 +629,13 @@ def run(ctx):
         proved = False
         pass
     else:
-        proved = ctx.prove(PROP_FILE, extra_targets=("Model/SpecWire.vo",))
+        proved = True
+        pas = []
+        for pf in PROP_FILES:
+            proved = ctx.prove(pf, extra_targets=("Model/SpecWire.vo",)) and proved
+            pas += list(ctx.cov.get("print_assumptions") or [])
+            ctx.cov["print_assumptions"] = []
+        ctx.cov["print_assumptions"] = pas
     res["obligations_proved"] = bool(proved)
     res["print_assumptions"] = list(ctx.cov.get("print_assumptions") or [])
     if old_pa is not None:
@@ -505,12 +748,91 @@ def run(ctx):
         if got != e:
             broken("S9 number", {"token": t, "spec.py": str(e), "Spec.Cards": str(got)})
 
+    # (b'') S11 geometry and S10 shortcuts: Spec/Geometry.v, Spec/Shortcuts.v against spec.parse_geometry,
+    # spec.geom_equal, spec.expand_shortcuts -----------------------------------------------------------------------
+    n_geom = 6000 if thorough else 700
+    gl = []
+    for text, w, kind, c in cases[:: max(1, len(cases) // (300 if thorough else 40))]:
+        for card in spec.split_file(text, w)["blocks"][0]:
+            try:
+                gt = spec.parse_cell(card)["geom_tokens"]
+            except Exception:
+                continue
+            if gt:
+                gl.append(gt)
+    for j in range(n_geom):
+        gl.append(gen_geom_tokens(random.Random(f"{ctx.seed}:SpecGeom:{j}")))
+    gl = [g for g in gl if all(t and " " not in t for t in g)]
+    greqs = ["geometry " + (",".join(hx(t) for t in g) or "-") for g in gl]
+    gans = ask(greqs)
+    res["geometries"] = 0
+    res["geometries_accepted"] = 0
+    pairs = []
+    for j, (g, a) in enumerate(zip(gl, gans)):
+        res["geometries"] += 1
+        e = spec_geometry(g)
+        if a != "none":
+            res["geometries_accepted"] += 1
+            if len(set(t.lstrip("+-") for t in g if re.match(r"^[+-]?\d+$", t))) <= 7:
+                pairs.append((g, rewrite_geom(random.Random(f"{ctx.seed}:SpecGeomRw:{j}"), g)))
+        if a != e:
+            broken("S11 geometry", {"tokens": g, "spec.py": e, "Spec.Geometry": a})
+    pairs = pairs[: (2500 if thorough else 300)]
+    sreqs = ["sameregion %s %s" % (",".join(hx(t) for t in a), ",".join(hx(t) for t in b)) for a, b in pairs]
+    sans = ask(sreqs)
+    res["region_pairs"] = 0
+    res["region_pairs_equal"] = 0
+    for (a, b), ans in zip(pairs, sans):
+        res["region_pairs"] += 1
+        try:
+            e = "1" if spec.geom_equal(spec.parse_geometry(list(a)), spec.parse_geometry(list(b))) else "0"
+        except spec.GeomError:
+            e = "none"
+        res["region_pairs_equal"] += ans == "1"
+        if ans != e:
+            broken("S11 same region", {"a": a, "b": b, "spec.py": e, "Spec.Geometry": ans})
+    n_sc = 8000 if thorough else 900
+    sl = []
+    for text, w, kind, c in cases[:: max(1, len(cases) // (300 if thorough else 40))]:
+        blocks = spec.split_file(text, w)["blocks"]
+        for blk in blocks[1:]:
+            for card in blk:
+                toks = []
+                for t in spec.tokens(card.text):
+                    toks += [x for x in re.split(r"([()])", t) if x]
+                if toks:
+                    sl.append(toks[1:])
+    for j in range(n_sc):
+        sl.append(gen_shortcut_tokens(random.Random(f"{ctx.seed}:SpecSc:{j}")))
+    sl = [t for t in sl if all(x and " " not in x for x in t)
+          and not any(re.search(r"[-+eEdD]0*[1-9]\d{3}", x) for x in t)]
+    screqs = ["shortcuts " + (",".join(hx(t) for t in g) or "-") for g in sl]
+    scans = ask(screqs)
+    res["shortcut_lists"] = 0
+    res["shortcut_lists_expanded"] = 0
+    res["shortcut_lists_without_meaning"] = 0
+    res["shortcut_lists_without_meaning_flagged_by_spec_py"] = 0
+    for toks, a in zip(sl, scans):
+        res["shortcut_lists"] += 1
+        m = parse_entries(a)
+        pyv = spec_shortcuts(toks)
+        if m is None:
+            # the manual gives the list no meaning (Spec.Shortcuts: None); spec.py either flags it or reads something
+            res["shortcut_lists_without_meaning"] += 1
+            if not isinstance(pyv, list) or any(x == ("bad",) for x in pyv):
+                res["shortcut_lists_without_meaning_flagged_by_spec_py"] += 1
+            continue
+        res["shortcut_lists_expanded"] += 1
+        if not entries_agree(m, pyv):
+            broken("S10 shortcuts", {"tokens": toks, "spec.py": str(pyv)[:400], "Spec.Shortcuts": a[:400]})
+
     # (c) the real reader on well-formed files -------------------------------------------------------------
     for text, w, a_cards, kind in wf_cases[:n_real]:
         res["real_reader_checked"] += 1
         rv = real_view(text.encode("latin-1"), w)
         mv = model_view(a_cards)
-        if rv != mv:
+        res["real_comments_compared"] = res.get("real_comments_compared", 0) + len(real_view.comments)
+        if rv != mv or real_view.comments != model_comments(a_cards):
             small = shrink_text(text, lambda t: theorem_mismatch(t, w) is not None)
             broken("C01_split_agrees instance: the real line reader and Spec.Cards differ on a well-formed file",
                    {"kind": kind, "width": w, "difference": theorem_mismatch(small, w), "file_hex": hx(small),
@@ -530,9 +852,44 @@ def run(ctx):
         else:
             res["witnesses"] += 1
 
+    # (c'') known findings: replayed; generated files outside the predicate on which the real reader and the rules
+    # differ are attributed to them when the file with the findings' features repaired reads alike ----------------------
+    entries = register_findings(ctx)
+    res["findings_reproduced"] = sorted(e["id"] for e in entries if e.get("_reproduced"))
+    res["findings_not_reproduced"] = sorted(e["id"] for e in entries if not e.get("_reproduced"))
+    res["nonwf_checked"] = 0
+    res["nonwf_differ"] = 0
+    res["nonwf_differ_attributed"] = 0
+    res["nonwf_differ_outside_format"] = 0
+    wf_texts = {(t, w) for t, w, _, _ in wf_cases}
+    nonwf = [(t, w, k, a) for (t, w, k, c), a in zip(cases, answers[0::3]) if (t, w) not in wf_texts]
+    for text, w, kind, a_cards in nonwf[: (3000 if thorough else 300)]:
+        res["nonwf_checked"] += 1
+        try:
+            data = text.encode("latin-1")
+        except UnicodeEncodeError:
+            continue
+        rv = real_view(data, w)
+        mv = model_view(a_cards)
+        if rv == mv:
+            continue
+        res["nonwf_differ"] += 1
+        case = {"kind": findings_Spec.KIND, "width": w, "text": text, "real_reader": rv, "rules": mv}
+        ids = attribute(case, entries)
+        if ids:
+            res["nonwf_differ_attributed"] += 1
+            for fid in ids:
+                if hasattr(ctx, "filtered"):
+                    ctx.filtered[fid] = ctx.filtered.get(fid, 0) + 1
+        else:
+            # the file breaks another clause of wf_file (vertical format, first data line beyond column 5, a lone
+            # '&', a tab in the title, control characters, an unterminated last line ...): outside MCNP's format
+            # or outside what the rules cover; counted, not judged
+            res["nonwf_differ_outside_format"] += 1
+
     # (d) vm_compute cross-check -----------------------------------------------------------------------------
-    allq = reqs + treqs + nreqs
-    alla = answers + tans + nans
+    allq = reqs + treqs + nreqs + greqs + sreqs + screqs
+    alla = answers + tans + nans + gans + sans + scans
     short = [(q, a) for q, a in zip(allq, alla) if len(q) < 3000]
     n, bad = vlib.vm_crosscheck(MODEL, [q for q, _ in short], [a for _, a in short],
                                 sample=120 if thorough else 30, seed=ctx.seed)
@@ -570,6 +927,10 @@ def main(argv):
     for l in res.get("print_assumptions", []):
         print("  " + l)
     print("obligations %d discharged %d" % (ctx.cov["obligations"], ctx.cov["discharged"]))
+    for fd in ctx.findings:
+        if fd.get("status") == "open" and fd.get("_reproduced"):
+            print(f"KNOWN-FINDING: property={fd['property']} {fd['id']}: {fd['what'][:160]}...")
+    print("attributed to known findings:", json.dumps(ctx.filtered, sort_keys=True))
     bad = list(ctx.broken_obligations)
     for b in bad[:6]:
         print("BROKEN:", json.dumps(b, default=str)[:1500])
